@@ -96,7 +96,17 @@ MODULE_TYPES = {"RA": RA, "RB": RB, "RC": RC, "RD": RD}
 
 def new_value(T: Any) -> Any:
     return T() if isinstance(T, type) else (lambda *a, **k: None)
-NAMES = ["default", "a", "b", "2nd", "7"]  # (any \w+ is a legal resource name, also one that is no Python identifier)
+# (any \w+ is a legal resource name, also one that is no Python identifier; "@enum" stands for a member of a str-mixin Enum - a
+# string like any other that happens to have a str() of its own - handed to resource(), add_resource() and the lookups alike)
+NAMES = ["default", "a", "b", "2nd", "7", "@enum"]
+
+
+class ResourceNames(str, __import__("enum").Enum):
+    primary = "primary"
+
+
+def rname(n: str) -> Any:
+    return ResourceNames.primary if n == "@enum" else n
 
 
 def gen_signature(rng: Any) -> dict[str, Any]:
@@ -148,6 +158,8 @@ def build_source(sig: dict[str, Any]) -> str:
     def marker(i: dict[str, Any]) -> str:
         if i["name"] == "default" and not i["explicit_default_name"]:
             return "resource()"
+        if i["name"] == "@enum":
+            return "resource(ENUM_NAME)"
         return f"resource({i['name']!r})"
 
     params = []
@@ -227,7 +239,7 @@ async def scenario(case: dict[str, Any], out: dict[str, Any]) -> None:
             V.append({"key": key, "msg": msg, "witness": {"source": out.get("source"), "case": {k: v for k, v in case.items()}}})
 
     body_runs: list[int] = []
-    ns: dict[str, Any] = {"inject": inject, "resource": resource, "BODY_RUNS": body_runs, **MODULE_TYPES}
+    ns: dict[str, Any] = {"inject": inject, "resource": resource, "BODY_RUNS": body_runs, "ENUM_NAME": ResourceNames.primary, **MODULE_TYPES}
     src = build_source(sig)
     out["source"] = src
     # decorate while some unrelated context is current: the decoration-time context must not matter.  Either that
@@ -266,15 +278,15 @@ async def scenario(case: dict[str, Any], out: dict[str, Any]) -> None:
             if j["state"] == "side_effect_of:" + arg:
                 cur = current_context()
                 Tj = TYPES[j["type"]]
-                if cur.get_resource_nowait(Tj, j["name"], optional=True) is None:
-                    cur.add_resource(new_value(Tj), j["name"], types=[Tj])
+                if cur.get_resource_nowait(Tj, rname(j["name"]), optional=True) is None:
+                    cur.add_resource(new_value(Tj), rname(j["name"]), types=[Tj])
                     inc("resources_published_as_a_side_effect_of_a_generation")
 
     def setup(ctx: Any, inherited: bool) -> None:
         """register what belongs into ctx: the inherited states go into the parent (before the child is created)"""
         for i in sig["inj"]:
-            T, name, state = TYPES[i["type"]], i["name"], i["state"]
-            key = (i["type"], name)
+            T, name, state = TYPES[i["type"]], rname(i["name"]), i["state"]
+            key = (i["type"], i["name"])
             if state.startswith("inherited") != inherited:
                 continue
             where = ctx
@@ -324,9 +336,9 @@ async def scenario(case: dict[str, Any], out: dict[str, Any]) -> None:
             optional = is_optional(i["spelling"])
             try:
                 if sig["is_async"]:
-                    res[i["arg"]] = await ctx.get_resource(T, i["name"], optional=optional) if optional else await ctx.get_resource(T, i["name"])
+                    res[i["arg"]] = await ctx.get_resource(T, rname(i["name"]), optional=optional) if optional else await ctx.get_resource(T, rname(i["name"]))
                 else:
-                    res[i["arg"]] = ctx.get_resource_nowait(T, i["name"], optional=optional) if optional else ctx.get_resource_nowait(T, i["name"])
+                    res[i["arg"]] = ctx.get_resource_nowait(T, rname(i["name"]), optional=optional) if optional else ctx.get_resource_nowait(T, rname(i["name"]))
             except Exception as e:
                 return res, e
         return res, None
@@ -464,6 +476,11 @@ async def scenario(case: dict[str, Any], out: dict[str, Any]) -> None:
               setup(root, True)
               started = anyio.Event()
 
+              ends: dict[bool, float] = {}
+              timed = sig["is_async"] and any(i["state"] == "async_factory" for i in sig["inj"])
+              if timed:
+                  slow[0] = 5.0  # (asynchronous factories take their time: the two calls run side by side all the same)
+
               async def in_own_context(first: bool) -> None:
                   async with Context() as own:
                       setup(own, False)
@@ -472,10 +489,18 @@ async def scenario(case: dict[str, Any], out: dict[str, Any]) -> None:
                       else:
                           started.set()
                       await call_and_compare(own)
+                      ends[first] = anyio.current_time()
 
               async with create_task_group() as tg2:
                   tg2.start_soon(in_own_context, True)
                   tg2.start_soon(in_own_context, False)
+              slow[0] = 0.0
+              if timed and len(ends) == 2:
+                  inc("concurrent_call_pairs_with_slow_factories")
+                  if abs(ends[True] - ends[False]) > 1e-9:
+                      bad("inject-differs", f"two calls of the injected function made side by side in two sibling contexts (each generating its own "
+                                            f"resources, which takes the same time in both) ended at virtual times {sorted(ends.values())}: one of them "
+                                            f"had to wait for the other, which explicit lookups never do")
           elif site == "root":
               setup(root, False)
               # 'inherited' states make no sense in a root context: they are placed nowhere -> behave as missing
